@@ -105,8 +105,15 @@ func runC13(p *core.Prog, r *core.Result) {
 		r.Check(notDry(s), "R13.1", fmt.Sprintf("dawn.(*runTarget).Evaluate#record-write-%d-not-in-dry-run", i+1), p.InstrPos(s), "the record is written only on the not-dry-run edge", "a target record can be written during a dry run: the next real build sees state the dry run produced")
 	}
 	// any other static call in Evaluate reaching a mutator
-	for _, c := range core.Calls(m.Fn) {
+	var evalCalls []ssa.CallInstruction
+	for _, f := range m.fns() {
+		evalCalls = append(evalCalls, core.Calls(f)...)
+	}
+	for _, c := range evalCalls {
 		cal := core.Callee(c)
+		if cal == m.BodyFn && cal != m.Fn {
+			continue // its own call sites are examined one by one
+		}
 		if cal == nil || cal == m.Save || !core.InModule(cal) {
 			if cal != nil && core.FSMutators[core.CalleeKey(cal)] {
 				n++
@@ -220,24 +227,18 @@ func runC13(p *core.Prog, r *core.Result) {
 	r.Check(okReader, "R13.2", "dawn.(*runTarget).Evaluate#dry-mark-read", p.Pos(m.DepsFn.Pos()), "the dependency loop compares a dependency's dry-run mark with the number of the current run", "the mark a dry run leaves on a visited target is not read back by the dependency loop: dependents of a target that would run are predicted up to date")
 	// the run number advances with every run, before the runner starts: marks of earlier dry runs never match
 	if run := need(p, r, "R13.5", "", "Project", "Run"); run != nil {
-		var inc *ssa.Store
-		core.Instrs(run, func(in ssa.Instruction) {
+		okInc := beforeRunner(p, run, func(in ssa.Instruction) bool {
 			st, ok := in.(*ssa.Store)
 			if !ok || !core.IsField(st.Addr, pkgRoot, "Project", "run") {
-				return
+				return false
 			}
-			if bo, ok := st.Val.(*ssa.BinOp); ok && bo.Op == token.ADD && isRunNo(bo.X) {
-				if k, ok := core.ConstInt(bo.Y); ok && k == 1 {
-					inc = st
-				}
+			bo, ok := st.Val.(*ssa.BinOp)
+			if !ok || bo.Op != token.ADD || !isRunNo(bo.X) {
+				return false
 			}
+			k, ok := core.ConstInt(bo.Y)
+			return ok && k == 1
 		})
-		okInc := inc != nil
-		for _, c := range core.Calls(run) {
-			if core.IsCallTo(c, pkgRunner, "Run") && inc != nil && !core.Dominates(inc, c.(ssa.Instruction)) {
-				okInc = false
-			}
-		}
 		if len(markStores) > 0 {
 			r.Check(okInc, "R13.5", "dawn.(*Project).Run#advances-run-number", p.Pos(run.Pos()), "every run gets a new number before the runner starts: the marks of an earlier dry run match no later run", "the run number is not advanced before every run: the marks a dry run left on the targets it visited are still taken for this run's, and the next build re-executes up-to-date targets")
 		}
@@ -252,7 +253,7 @@ func runC13(p *core.Prog, r *core.Result) {
 	r.Check(okDry, "R13.2", "dawn.(*runTarget).Evaluate#dry-branch", p.Pos(m.Fn.Pos()), "the dry-run branch marks the target as assumed to change and reports success", "the dry-run branch does not mark the target as changed before it reports success (dependents would be predicted up to date)")
 	// the dry branch returns before the body
 	for _, ret := range core.ReturnsOf(m.Fn) {
-		if holds(p, ret, true, func(v ssa.Value) bool { return projField(v, "dryrun") }) && core.Dominates(m.Evaluate, ret) {
+		if holds(p, ret, true, func(v ssa.Value) bool { return projField(v, "dryrun") }) && m.dom(m.Evaluate, ret) {
 			r.Bad("R13.2", "dawn.(*runTarget).Evaluate#dry-return", p.InstrPos(ret), "a dry-run return is reached after the body")
 		}
 	}
@@ -286,14 +287,10 @@ func runC13(p *core.Prog, r *core.Result) {
 	}
 	// Run applies the options before running
 	if Run := p.Func("", "Project", "Run"); Run != nil {
-		ok := false
-		for _, c := range core.CallsTo(Run, apply) {
-			for _, c2 := range core.Calls(Run) {
-				if core.IsCallTo(c2, pkgRunner, "Run") && core.Dominates(c.(ssa.Instruction), c2.(ssa.Instruction)) {
-					ok = true
-				}
-			}
-		}
+		ok := beforeRunner(p, Run, func(in ssa.Instruction) bool {
+			c, isCall := in.(ssa.CallInstruction)
+			return isCall && core.Callee(c) == apply
+		})
 		r.Check(ok, "R13.3", "dawn.(*Project).Run#apply-before-run", p.Pos(Run.Pos()), "options are applied before the runner starts", "Run does not apply its options before starting the runner")
 	}
 
@@ -770,7 +767,7 @@ func checkRecordWrites(p *core.Prog, r *core.Result, m *evalModel, ruleFail, rul
 		s, lit := w.Site, w.Lit
 		nn, known := p.FactsAt(s).ErrNonNil(evalErr)
 		construct := fmt.Sprintf("dawn.(*runTarget).Evaluate#record-write-%d", i+1)
-		if !core.Dominates(m.Evaluate, s) {
+		if !m.dom(m.Evaluate, s) {
 			if rr, okc := core.ConstBool(lit.Fields["Rerun"]); okc && rr && (len(lit.Whole) == 0 || lit.After["Rerun"]) {
 				r.OK(ruleFail, construct+":early-failure-record", p.InstrPos(s), "a record written before the body is built with Rerun=true: it can only force a re-run")
 				continue
@@ -843,4 +840,44 @@ func checkBuildCommandsNoIndex(p *core.Prog, r *core.Result) {
 		r.Check(!b, "R3.6", fname(f)+"#index-arg", p.InstrPos(c.(ssa.Instruction)), "a command that builds loads the project fully (index=false)", "a command that builds prefers the index: targets are index stubs that cannot execute and source changes are not seen")
 	}
 	r.Floor("R3.6", n, 1, "commands that load a project and build")
+}
+
+// beforeRunner: on every path of fn (Project.Run) an instruction satisfying pred is executed before the runner starts
+// - in fn itself, or in a helper of the package that only fn calls and that executes such an instruction on every path.
+func beforeRunner(p *core.Prog, fn *ssa.Function, pred func(ssa.Instruction) bool) bool {
+	fam := family(p, fn)
+	var always func(h *ssa.Function, depth int) bool
+	isStep := func(in ssa.Instruction) bool {
+		if pred(in) {
+			return true
+		}
+		if c, ok := in.(*ssa.Call); ok {
+			if h := core.Callee(c); h != nil && h != fn && fam[h] {
+				return always(h, 1)
+			}
+		}
+		return false
+	}
+	always = func(h *ssa.Function, depth int) bool {
+		if depth > 2 {
+			return false
+		}
+		for _, ret := range core.ReturnsOf(h) {
+			if core.BlockReachesAvoiding(h.Blocks[0], ret, isStep) {
+				return false
+			}
+		}
+		return len(core.ReturnsOf(h)) > 0
+	}
+	n := 0
+	for _, c := range core.Calls(fn) {
+		if !core.IsCallTo(c, pkgRunner, "Run") {
+			continue
+		}
+		n++
+		if core.BlockReachesAvoiding(fn.Blocks[0], c.(ssa.Instruction), isStep) {
+			return false
+		}
+	}
+	return n > 0
 }
